@@ -622,7 +622,14 @@ class Timing:
             if strip(kw.get(fps[1])) != elem:
                 fail(r, ctx, helper, ap.node, f"builder for {c.name} must receive the current datum as `{fps[1]}`; receives {show(kw.get(fps[1]))[:120]}")
             if len(fps) >= 4:
-                if strip(kw.get(fps[2])) != strip(PREV):
+                prev_a = kw.get(fps[2])
+                carried_ok = False
+                if prev_a is not None and prev_a[0] == "lv" and prev_a[1] == loop.id:
+                    # second verified form: the predecessor is carried in a local -- starts as None, becomes the event just appended at
+                    # the end of every iteration (exactly the value appended; no other assignment)
+                    init_, upd_ = loop.carried.get(prev_a[2], (None, None))
+                    carried_ok = init_ == ("const", None) and upd_ is not None and strip(upd_) == strip(val) and not extra
+                if not carried_ok and strip(prev_a) != strip(PREV):
                     fail(r, ctx, helper, ap.node,
                          f"predecessor passed for {c.name} must be the last event appended to the same list "
                          f"(acc[-1] if acc else None); found {show(kw.get(fps[2]))[:160]}")
